@@ -162,6 +162,28 @@ def _e_uni_fit_candidates(spec, rs, variant):
     return call, (cands, x), {}, None
 
 
+@entry('uni.kde_weights', ['fit'])
+def _e_kde_weights(spec, rs, variant):
+    from copulas.univariate import GaussianKDE
+    n = 30
+    x = rs.gamma(2.0, 1.5, size=n)
+    kind = spec.get('weights_kind', 'counts_f8')
+    w = rs.randint(1, 9, size=n)
+    if kind == 'counts_f8':
+        w = w.astype(np.float64)          # frequency counts: do not sum to one
+    elif kind == 'list':
+        w = [float(v) for v in w]
+    elif kind == 'normalised':
+        w = w / w.sum()
+    kw = {}
+
+    def call(W, X):
+        m = GaussianKDE(weights=W, **kw)
+        m.fit(X)
+        return [m.cdf(np.array([1.0, 2.5])), m.probability_density(np.array([1.0, 2.5]))]
+    return call, (w, x), {}, None
+
+
 @entry('uni.pdf', V1)
 def _e_uni_pdf(spec, rs, variant):
     m = _fitted_uni(spec, rs)
@@ -428,9 +450,14 @@ def _e_datasets(spec, rs, variant):
     return getattr(datasets, name), (int(spec.get('size', 12)), int(spec.get('dseed', 3))), {}, None
 
 
-def _viz_frames(rs, d, n=12, index='range', ties=False, int_real=False, labels='str'):
+def _viz_frames(rs, d, n=12, index='range', ties=False, int_real=False, labels='str',
+                own_data_column=False):
     # 'int': the labels of a frame made from an ndarray (0, 1, 2, ...)
     names = ['a', 'b', 'c', 'e'][:d] if labels != 'int' else list(range(d))
+    if own_data_column and labels != 'int' and d >= 3:
+        # the caller's tables have a column of their own that happens to be called 'Data'
+        # (it is not among the requested columns)
+        names = ['Data'] + names[1:]
     real = pd.DataFrame(rs.normal(size=(n, d)), columns=names)
     synth = pd.DataFrame(rs.normal(size=(n + 3, d)) + 1.0, columns=names)
     if int_real:
@@ -475,6 +502,8 @@ def _pick_columns(spec, frame, dims):
     """The requested columns: the frame's last ones, those reversed, or any of the frame's
     labels in any order."""
     cols = list(frame.columns[-dims:])
+    if spec.get('own_data_column') and len(frame.columns) > dims:
+        return cols[::-1] if spec.get('reverse_columns') else cols    # never the 'Data' column
     if spec.get('reverse_columns'):
         cols = cols[::-1]                 # requested order differs from the frame's order
     pick = spec.get('col_pick')
@@ -491,7 +520,8 @@ def _e_scatter(spec, rs, variant):
     dims = 2 if variant.startswith('2d') else 3
     with_cols = variant.endswith('_columns')
     real, _ = _viz_frames(rs, dims + (1 if with_cols else 0), index=spec.get('index', 'range'),
-                          ties=spec.get('ties', False), labels=spec.get('labels', 'str'))
+                          ties=spec.get('ties', False), labels=spec.get('labels', 'str'),
+                          own_data_column=spec.get('own_data_column', False) and with_cols)
     cols = _pick_columns(spec, real, dims) if with_cols else None
     fn = viz.scatter_2d if dims == 2 else viz.scatter_3d
     want_cols = list(cols) if cols else list(real.columns[:dims])
@@ -509,7 +539,8 @@ def _e_compare(spec, rs, variant):
     real, synth = _viz_frames(rs, dims + (1 if with_cols else 0),
                               index=spec.get('index', 'range'), ties=spec.get('ties', False),
                               int_real=spec.get('int_real', False),
-                              labels=spec.get('labels', 'str'))
+                              labels=spec.get('labels', 'str'),
+                              own_data_column=spec.get('own_data_column', False) and with_cols)
     cols = _pick_columns(spec, real, dims) if with_cols else None
     fn = viz.compare_2d if dims == 2 else viz.compare_3d
     want_cols = list(cols) if cols else list(real.columns[:dims])
@@ -548,7 +579,9 @@ def _rand_spec(rng):
             'size': rng.choice([1, 5, 30]), 'dseed': rng.randrange(1000),
             'root_at': rng.choice([None, 'lower', 'upper', 'both']),
             'labels': rng.choice(['str', 'int']),
-            'col_pick': rng.choice([None, rng.randrange(24)])}
+            'col_pick': rng.choice([None, rng.randrange(24)]),
+            'own_data_column': rng.random() < 0.3,
+            'weights_kind': rng.choice(['counts_f8', 'counts_i8', 'list', 'normalised'])}
 
 
 def generate(rng, tier, idx):
@@ -572,7 +605,10 @@ def fixed_runs(tier):
                                   'selection_sample_size': len(runs) % 2 == 0,
                                   'root_at': [None, 'lower', 'upper', 'both'][len(runs) % 4],
                                   'labels': ['str', 'int'][(len(runs) // 2) % 2],
-                                  'col_pick': [None, 1, 2, 3, 5][len(runs) % 5]},
+                                  'col_pick': [None, 1, 2, 3, 5][len(runs) % 5],
+                                  'own_data_column': len(runs) % 3 == 1,
+                                  'weights_kind': ['counts_f8', 'counts_i8', 'list',
+                                                   'normalised'][len(runs) % 4]},
                          'seed': 100 + len(runs), 'readonly': False, 'ops': []})
     return runs
 
